@@ -9,7 +9,7 @@
    name.  `reads cfg t` = [build] passunsafeenv ++ [build] passenv ++ target pass_unsafe_env ++ target pass_env
    ++ (HOME, only if a secret of the target contains "~").  `with_env t e`: the same target with its env dict listed
    in another order (a Go map has none). *)
-From PlzV Require Import Base.Harness Model.C10 Proof.C10 Proof.C10_Gen Proof.C10_Sandbox.
+From PlzV Require Import Base.Harness Model.C10 Proof.C10 Proof.C10_Gen Proof.C10_Sandbox Proof.C10_R2.
 From PlzV Require Gen.C10Env.
 From Coq Require Import Permutation.
 
@@ -117,6 +117,84 @@ Proof.
   - exact (action_env_lookup _ _ _ _ _ _ _ _ (build_env_sb_nonempty sx cfg t tmp caller) Ha).
 Qed.
 Print Assumptions C10_sandbox.
+
+(* Round-2 follow-up A: the three states of a listed variable.  ruleHash writes NAME= ++ os.Getenv(NAME): it cannot tell
+   "not set" from "set but empty".  The environment must then not tell them apart either:
+   (1) for the read modes THE SOURCE HAS (gotrans translates the loop bodies of TargetEnvironment and ruleHash into
+       RGetenv / RLookup on every run), the environment side is not finer than the hash side and callers the hash cannot
+       tell apart get the same TargetEnvironment;
+   (2) for the whole build environment of the unchanged code: it is a function of the os.Getenv values of the
+       target-level listed variables (plus the configuration-level lists and HOME-if-read);
+   (3) equal hashed bytes give equal environments ("="-free names and values, C10_framing's hypothesis): env = f(hashed). *)
+Theorem C10_tristate :
+  (forall mu me mh, gen_modes = Some (mu, me, mh) ->
+     mode_le me mh = true
+     /\ (forall cfg t c, target_env cfg t c = target_env_m mu me cfg t c)
+     /\ (forall cfg t c1 c2,
+           agree c1 c2 (c_pass_unsafe cfg ++ c_pass_env cfg) ->
+           (forall n, In n (opt_list (t_pass_unsafe t)) -> read_view mu c1 n = read_view mu c2 n) ->
+           hashed_view mh t c1 = hashed_view mh t c2 ->
+           target_env_m mu me cfg t c1 = target_env_m mu me cfg t c2))
+  /\ (forall sx cfg t tmp c1 c2,
+        agree c1 c2 (c_pass_unsafe cfg ++ c_pass_env cfg ++ code_reads cfg t) ->
+        (forall n, In n (opt_list (t_pass_unsafe t) ++ opt_list (t_pass_env t)) -> getenv c1 n = getenv c2 n) ->
+        build_env_sb sx cfg t tmp c1 = build_env_sb sx cfg t tmp c2)
+  /\ (forall sx cfg t tmp pre post c1 c2,
+        agree c1 c2 (c_pass_unsafe cfg ++ c_pass_env cfg ++ code_reads cfg t) ->
+        (forall n, In n (opt_list (t_pass_unsafe t)) -> getenv c1 n = getenv c2 n) ->
+        (forall n, In n (opt_list (t_pass_env t)) -> no_eq n /\ no_eq (getenv c1 n) /\ no_eq (getenv c2 n)) ->
+        rule_stream pre post t c1 = rule_stream pre post t c2 ->
+        build_env_sb sx cfg t tmp c1 = build_env_sb sx cfg t tmp c2).
+Proof. exact (conj gen_env_function_of_hashed (conj env_function_of_hashed env_function_of_stream)). Qed.
+Print Assumptions C10_tristate.
+
+(* Round-2 follow-up B: "changing a pass_env value causes a rebuild" over HISTORIES of invocations, failing actions,
+   `rm -rf plz-out` and both hash stores ([build] xattrs = true: on the outputs; false: .rule_hash_ side files) included.
+   With the sequence of checks needsBuilding HAS (translated by gotrans on every run) and whatever Build() does when the
+   action fails: after any history, an invocation that reports success leaves outputs that exist and were produced
+   under the CURRENT hashed bytes, and it re-ran the action exactly when the outputs on disk were not those. *)
+Theorem C10_incremental :
+  forall checks, gen_checks = Some checks ->
+  forall xattrs h key ok st' ran,
+    let st := fst (run_history checks gen_removes xattrs o_init h) in
+    build_once checks gen_removes xattrs key ok st = (st', (ran, true)) ->
+    o_out st' = Some key /\ ran = negb (okey_eqb (o_out st) (Some key)).
+Proof. exact gen_history_fresh. Qed.
+Print Assumptions C10_incremental.
+
+(* Round-2 follow-up C: the built-in remote_file action is a build action too.  With the mapping the source uses to
+   expand header values (translated by gotrans): the value sent is determined by configuration, target and the LISTED
+   caller variables, for every declared header value and every enumeration order of the env dict. *)
+Theorem C10_headers :
+  forall m, gen_hdr_mode = Some m ->
+  forall cfg t tmp c1 c2 e1 e2 raw,
+    NoDup (map fst (t_env t)) -> Permutation e1 (t_env t) -> Permutation e2 (t_env t) -> agree c1 c2 (reads cfg t) ->
+    header_value m cfg (with_env t e1) tmp c1 raw = header_value m cfg (with_env t e2) tmp c2 raw.
+Proof. exact gen_header_determined. Qed.
+Print Assumptions C10_headers.
+
+(* Non-vacuity of the round-2 theorems.  The hypotheses are satisfiable (the source's modes / checks / mapping parse);
+   unset vs. empty: same stream, same environment, and a value differs from both; a good-bad-good history on side
+   files rebuilds at the third step; a header sees the listed T_A and nothing of LEAK.  Each statement is FALSE for the
+   neighbouring source (LookupEnv in TargetEnvironment; no existence check; os.ExpandEnv) - so the theorems are not
+   trivially true of any translation. *)
+Example C10_round2_nonvacuous :
+  gen_modes = Some (RGetenv, RGetenv, RGetenv) /\ gen_checks = Some nb_checks_unchanged /\ gen_removes = true
+  /\ gen_hdr_mode = Some HTargetEnv
+  /\ (let t := simple_target (Some [s "T_A"]) [] in
+      build_env (empty_cfg []) t (s "/tmp/b") [] = build_env (empty_cfg []) t (s "/tmp/b") [(s "T_A", [])]
+      /\ rule_stream [] [] t [] = rule_stream [] [] t [(s "T_A", [])]
+      /\ rule_stream [] [] t [] <> rule_stream [] [] t [(s "T_A", s "v")]
+      /\ vstate_of [] (s "T_A") = VUnset /\ vstate_of [(s "T_A", [])] (s "T_A") = VEmpty
+      /\ target_env_m RLookup RLookup (empty_cfg []) t [] <> target_env_m RLookup RLookup (empty_cfg []) t [(s "T_A", [])])
+  /\ (let good := (s "cfg", s "MODE=fast") in let bad := (s "cfg", s "MODE=broken") in
+      let h := [Some (good, true); Some (bad, false); Some (good, true)] in
+      snd (run_history nb_checks_unchanged true false o_init h) = [(true, true, true); (true, false, false); (true, true, true)]
+      /\ snd (run_history nb_checks_no_outputs true false o_init h) = [(true, true, true); (true, false, false); (false, true, false)])
+  /\ (let c1 := [(s "T_A", s "1"); (s "LEAK", s "hunter2")] in
+      header_value HTargetEnv (empty_cfg []) hdr_target (s "/tmp/x") c1 (s "tok-$LEAK/$T_A") = s "tok-/1"
+      /\ header_value HShellEnv (empty_cfg []) hdr_target (s "/tmp/x") c1 (s "tok-$LEAK/$T_A") = s "tok-hunter2/1").
+Proof. vm_compute. repeat split; try reflexivity; discriminate. Qed.
 
 (* Non-vacuity of the two follow-up theorems: a sandboxed target under the built-in sandbox, two callers that differ in
    an unlisted variable; the action sees the pass_env variable, the rewritten temp dir, the three fixed entries and no
